@@ -127,6 +127,118 @@ Definition slate_roundtrip (db : databox) (nms : option (list string)) (fr from 
   | Ok sl => Ok (to_databox sl (match nms with Some l => l | None => names A db end) fr from n (o_nvar o) trimmed [])
   end.
 
+(* ------------------------------------------------------------------ the dataslate as an object:
+   names, periods, base columns and data, and the in-place methods that change the span
+   (dataslates/main.py: remove_periods_from_start / _from_end, add_periods_to_end, remove_initial,
+   remove_terminal, rename, base_periods setter; _invariants.py and _variants.py: the same on the
+   invariant and on every variant), followed by to_databox(span="full" | "base") *)
+Record dslate := mkDs {
+  ds_names : list string;
+  ds_periods : list Z;            (* Invariant.periods *)
+  ds_base : list nat;             (* Invariant.base_columns, sorted *)
+  ds_mms : Z * Z;                 (* Invariant.min_max_shift *)
+  ds_data : slate                 (* variant -> name -> column *)
+}.
+
+Definition ds_ncols (d : dslate) : nat := length (nth 0 (nth 0 (ds_data d) []) []).
+
+Definition dslate_from_databox (db : databox) (nms : option (list string)) (fr from : Z) (n : nat) (o : sopts)
+  (mms : Z * Z) : res dslate :=
+  match from_databox db nms fr from n o with
+  | Err e => Err e
+  | Ok sl => Ok (mkDs (match nms with Some l => l | None => names A db end)
+                      (zrange from (from + Z.of_nat n)) (o_base o) mms sl)
+  end.
+
+Inductive slop :=
+  | SRemoveStart (k : Z)                       (* remove_periods_from_start(k) *)
+  | SRemoveEnd (k : Z)                         (* remove_periods_from_end(k) *)
+  | SAddEnd (k : Z)                            (* add_periods_to_end(k) *)
+  | SRemoveInitial                             (* remove_initial(): -min_max_shift[0] periods from the start *)
+  | SRemoveTerminal                            (* remove_terminal(): min_max_shift[1] periods from the end *)
+  | SRename (m : list (string * string))       (* rename({old: new}) *)
+  | SSetBase (ps : list Z).                    (* base_periods = ps *)
+
+Fixpoint rlookup (m : list (string * string)) (n : string) : string :=
+  match m with
+  | [] => n
+  | (k, v) :: r => if String.eqb k n then v else rlookup r n
+  end.
+
+Definition zmem (t : Z) (l : list Z) : bool := existsb (Z.eqb t) l.
+
+Definition ds_remove_start (d : dslate) (k : Z) : res dslate :=
+  if k <? 0 then Err 3 else
+  let j := Z.to_nat k in
+  if Nat.eqb j 0 then Ok d else
+  Ok (mkDs (ds_names d) (skipn j (ds_periods d))
+           (map (fun i => (i - j)%nat) (filter (fun i => Nat.leb j i) (ds_base d)))
+           (ds_mms d) (map (map (skipn j)) (ds_data d))).
+
+Definition ds_remove_end (d : dslate) (k : Z) : res dslate :=
+  if k <? 0 then Err 3 else
+  let j := Z.to_nat k in
+  if Nat.eqb j 0 then Ok d else
+  let ps := firstn (length (ds_periods d) - j) (ds_periods d) in
+  Ok (mkDs (ds_names d) ps (filter (fun i => Nat.ltb i (length ps)) (ds_base d)) (ds_mms d)
+           (map (map (fun v => firstn (length v - j) v)) (ds_data d))).
+
+(* the periods appended are periods_from_until(end, end + k): the current end period is listed again *)
+Definition ds_add_end (d : dslate) (k : Z) : res dslate :=
+  if k <? 0 then Err 3 else
+  if k =? 0 then Ok d else
+  match ds_periods d with
+  | [] => Err 5
+  | p0 :: _ =>
+      let e := last (ds_periods d) p0 in
+      Ok (mkDs (ds_names d) (ds_periods d ++ zrange e (e + k + 1)) (ds_base d) (ds_mms d)
+               (map (map (fun v => v ++ repeat (miss A) (Z.to_nat k))) (ds_data d)))
+  end.
+
+Definition ds_step (d : dslate) (o : slop) : res dslate :=
+  match o with
+  | SRemoveStart k => ds_remove_start d k
+  | SRemoveEnd k => ds_remove_end d k
+  | SAddEnd k => ds_add_end d k
+  | SRemoveInitial => ds_remove_start d (- fst (ds_mms d))
+  | SRemoveTerminal => ds_remove_end d (snd (ds_mms d))
+  | SRename m => Ok (mkDs (map (rlookup m) (ds_names d)) (ds_periods d) (ds_base d) (ds_mms d) (ds_data d))
+  | SSetBase ps =>
+      Ok (mkDs (ds_names d) (ds_periods d)
+               (map fst (filter (fun p => zmem (snd p) ps) (combine (seq 0 (length (ds_periods d))) (ds_periods d))))
+               (ds_mms d) (ds_data d))
+  end.
+
+Fixpoint ds_run (d : dslate) (ops : list slop) : res dslate :=
+  match ops with
+  | [] => Ok d
+  | o :: r => match ds_step d o with Ok d1 => ds_run d1 r | Err e => Err e end
+  end.
+
+(* Dataslate.base_periods *)
+Definition ds_base_periods (d : dslate) : res (list Z) :=
+  if forallb (fun i => Nat.ltb i (length (ds_periods d))) (ds_base d)
+  then Ok (map (fun i => nth i (ds_periods d) 0) (ds_base d)) else Err 5.
+
+(* Dataslate.to_databox(span="full" | "base", trim) *)
+Definition ds_to_databox (d : dslate) (fr : Z) (base_span trimmed : bool) : res databox :=
+  let nvar := length (ds_data d) in
+  if base_span then
+    match ds_base d with
+    | [] => Err 5
+    | b0 :: _ =>
+        let bl := last (ds_base d) b0 in
+        if Nat.leb (length (ds_periods d)) b0 then Err 5 else
+        let w := (Nat.min (S bl) (ds_ncols d) - b0)%nat in
+        Ok (to_databox (map (map (fun v => firstn w (skipn b0 v))) (ds_data d)) (ds_names d) fr
+                       (nth b0 (ds_periods d) 0) w nvar trimmed [])
+    end
+  else
+    match ds_periods d with
+    | [] => Err 5
+    | p0 :: _ => Ok (to_databox (ds_data d) (ds_names d) fr p0 (ds_ncols d) nvar trimmed [])
+    end.
+
 End SlateModel.
 
 Arguments FScal {A}. Arguments FList {A}.
